@@ -44,7 +44,7 @@ def sh(cmd, timeout=600, cwd=None, env=None, check=True, stdin=None):
 
 VARIANTS = {
     # hooks on, ASan+UBSan: every conformance driver uses this one
-    "asan": dict(cflags="-DNNG_VERIF -g -O1 -fsanitize=address,undefined "
+    "asan": dict(cflags="-DNNG_VERIF -g -O1 -fsanitize=address,undefined -fno-sanitize=nonnull-attribute "
                         "-fno-sanitize-recover=undefined -fno-omit-frame-pointer",
                  ldflags="-fsanitize=address,undefined"),
     # hooks on, no sanitizer (fast; used by throughput-heavy trace recording)
@@ -279,12 +279,43 @@ def tlc_edges(spec_rel, cfg, timeout=900, env=None, cache=True, simulate=None, d
         if k not in ids:
             ids[k] = len(ids)
         return ids[k]
+    def dsort(x):
+        if isinstance(x, list):
+            return sorted((dsort(v) for v in x), key=lambda z: json.dumps(z, sort_keys=True))
+        if isinstance(x, dict):
+            return {k: dsort(v) for k, v in x.items()}
+        return x
+    raw = []
     for line in res["out"].splitlines():
         if not line.startswith('<<"E", "'):
             continue
-        js = json.loads(line[len('<<"E", '):-2])
-        e = json.loads(js)
-        s, d = nid(e["s"]), nid(e["d"])
+        raw.append(json.loads(json.loads(line[len('<<"E", '):-2])))
+    if simulate:
+        # TLC evaluates the action constraint for candidate successors too: a behaviour is recovered by
+        # grouping consecutive records with the same source (state, last action) and keeping, in each
+        # group, the record whose target is the source of the next group.
+        groups = []
+        for e in raw:
+            k = json.dumps([dsort(e["s"]), e["sa"]], sort_keys=True)
+            if groups and groups[-1][0] == k and e["sa"]["a"] != "init":
+                groups[-1][1].append(e)
+            elif groups and groups[-1][0] == k and e["sa"]["a"] == "init" and len(groups[-1][1]) and False:
+                groups[-1][1].append(e)
+            else:
+                groups.append((k, [e]))
+        chosen = []
+        for gi, (k, es) in enumerate(groups):
+            nxt = groups[gi + 1][0] if gi + 1 < len(groups) else None
+            pick = None
+            for e in es:
+                if nxt is not None and json.dumps([dsort(e["d"]), e["act"]], sort_keys=True) == nxt:
+                    pick = e
+                    break
+            if pick is not None:
+                chosen.append(pick)
+        raw = chosen
+    for e in raw:
+        s, d = nid(dsort(e["s"]) if simulate else e["s"]), nid(dsort(e["d"]) if simulate else e["d"])
         if e["sa"]["a"] == "init":
             inits.add(s)
             init_acts[str(s)] = e["sa"]
